@@ -321,6 +321,9 @@ func init() {
 		MinNontrivial: 1000,
 		Streams: []Stream{
 			{Name: "shapes", Setup: c19Setup, N: func(c *Ctx) int { return len(c19Shapes) }, Run: c19ShapesRun, Exhaustive: true},
+			{Name: "joins", N: func(c *Ctx) int { return joinN() }, Run: joinModel("C19", false), Exhaustive: true},
+			{Name: "hash-hostile-names", N: func(c *Ctx) int { return hashNamesN() }, Run: hashNamesRun("C19"), Exhaustive: true},
+			{Name: "wide-let", N: func(c *Ctx) int { return len(wideLetSizes) }, Run: wideLetRun("C19"), Exhaustive: true},
 			{Name: "random", Setup: c19Setup, N: func(c *Ctx) int { return tierN(c, 40000, 10000000) }, Run: c19Random},
 		},
 	})
